@@ -187,6 +187,13 @@ def visitOp : Handler := fun args =>
       ("confined", Json.bool (st.log.all fun w => n ≤ w.1)),
       ("writes", (st.log.length : Nat)),
       ("order", Json.arr (st.out.map fun e => Json.str e.1).toArray),
+      -- cross-check of two models: the pure closure the WithSelectedServices program uses for `p.ForEachService(names, set.Add, …)`
+      ("selectedAgrees", Json.bool (
+        let names := getStrList args "names"
+        let names' := if names.isEmpty then mapKeys (getFld CV.Heap.Deriv.fServices src) else names
+        match CV.Heap.Deriv.selected src names' policy with
+        | none => st.err == some "no such service"
+        | some set => st.err.isNone && set.all (fun x => st.out.any (·.1 == x)) && st.out.all (fun e => set.contains e.1))),
       ("branches", Json.arr ((visitBranches src policy st).map Json.str).toArray)]
   | none, _ => Json.mkObj [("bad", "no ServiceConfig root")]
   | _, .error e => Json.mkObj [("bad", .str e)]
